@@ -493,7 +493,9 @@ def native_run(c, conc):
             g = dict(real_module(c.modname).__dict__)
             env = dict(native)
             if c.fragment["mode"] == "expr":
-                o.result = eval(compile(_ast.fix_missing_locations(_ast.Expression(body=node)), "<fragment>", "eval"), g, env)
+                g2 = dict(g)
+                g2.update(env)      # comprehensions inside the fragment resolve free names in globals
+                o.result = eval(compile(_ast.fix_missing_locations(_ast.Expression(body=node)), "<fragment>", "eval"), g2)
             else:
                 exec(compile(_ast.fix_missing_locations(_ast.Module(body=list(node), type_ignores=[])), "<fragment>", "exec"), g, env)
                 o.args = OrderedDict(env)
